@@ -66,7 +66,7 @@ func VH_mstr_Trunc() {
 	if vCase("valid") == 1 {
 		vAssume(vValidUTF8(s))
 	}
-	n := vRange("cut", 0, ln+1)
+	n := vRange("cut", 0, 1<<63-1) // every n >= 0
 	got := Trunc(s, n)
 	vCover("trunc")
 	vAssert(len(got) <= ln, "Trunc: result no longer than s")
